@@ -24,7 +24,7 @@
 EXTENDS Integers, Sequences, FiniteSets, TLC, SequencesExt, TmplTokens
 
 CONSTANTS Fams,        \* names of the template families explored (see Family below)
-          Grow,        \* added to every family's token bound (0 = quick bounds)
+          Grow,        \* token bound of a family = its max + Grow - 1  (MC quick 0, Gen quick / MC thorough 1, Gen thorough 2)
           SLen,        \* values of the pool string s in the "values" families: every string over SAlpha up to this length
           Fuel         \* iteration bound for while loops (more = unspecified "diverge")
 
@@ -51,9 +51,9 @@ SfxOf(c) == IF FirstSp(c) = 0 THEN <<>> ELSE Strip(SubSeq(c, FirstSp(c) + 1, Len
 NameOf(tab, c) == IF \E n \in DOMAIN tab : tab[n] = c THEN CHOOSE n \in DOMAIN tab : tab[n] = c ELSE "?"
 ArgOf(sfx) == IF sfx = <<>> THEN "" ELSE NameOf(Pool, sfx)
 
-ValExprs == {"s", "b", "n", "o", "t", "f", "x", "y", "k", "boom", "esc_s", "k<2", "k==1", "x==1"}
+ValExprs == {"s", "b", "n", "o", "t", "f", "x", "y", "k", "boom", "esc_s", "kLT2", "kEQ1", "xEQ1"}
 LoopHdrs == {"x_in_r", "y_in_r", "x_in_e"}
-SetStmts == {"k=0", "k=k+1"}
+SetStmts == {"kSET0", "kINC"}
 ApplyFns == {"wrap", "xhtml_escape", "escape"}
 ExcArgs  == {"", "ZeroDivisionError", "NameError"}
 EscFns   == {"xhtml_escape", "escape"}
@@ -260,9 +260,9 @@ ExprV(c, e, env) ==
       [] e \in Vars -> VarV(env, e)
       [] e = "boom" -> Raise("ZeroDivisionError")
       [] e = "esc_s" -> ValStr("str", Escape(c.sval))
-      [] e = "k<2" -> CmpV(env, "k", LAMBDA v : v < 2)
-      [] e = "k==1" -> CmpV(env, "k", LAMBDA v : v = 1)
-      [] e = "x==1" -> CmpV(env, "x", LAMBDA v : v = 1)
+      [] e = "kLT2" -> CmpV(env, "k", LAMBDA v : v < 2)
+      [] e = "kEQ1" -> CmpV(env, "k", LAMBDA v : v = 1)
+      [] e = "xEQ1" -> CmpV(env, "x", LAMBDA v : v = 1)
 
 TextOf(v) == CASE v.ty \in {"str", "bytes", "obj"} -> v.s
                [] v.ty = "int" -> Digits(v.i)
@@ -369,7 +369,7 @@ EvalNode(C, n, st) ==
               ELSE Emit(st, [src |-> IF n.raw THEN "raw" ELSE "expr", file |-> C.file, esc |-> esc,
                              s |-> IF esc THEN Escape(TextOf(v)) ELSE TextOf(v)])
       [] n.k = "set" ->
-           IF n.e = "k=0" THEN [st EXCEPT !.env.k = 0]
+           IF n.e = "kSET0" THEN [st EXCEPT !.env.k = 0]
            ELSE IF st.env.k = Unbound THEN Throw(st, "NameError") ELSE [st EXCEPT !.env.k = @ + 1]
       [] n.k = "brk" -> [st EXCEPT !.sig = n.op]
       [] n.k = "ctl" ->
@@ -392,12 +392,12 @@ EvalSeq(C, nodes, st) == FoldLeft(LAMBDA a, n : IF a.sig = "ok" THEN EvalNode(C,
 -----------------------------------------------------------------------------
 (* Loader: reachable files, inheritance chain, block table, the result *)
 
-RECURSIVE RefsIn(_)
-RefsIn(nodes) ==
+RECURSIVE RefsIn(_, _)
+RefsIn(nodes, kinds) ==
     UNION {LET n == nodes[i] IN
-           CASE n.k \in {"include", "extends"} -> {n.file}
-             [] n.k = "ctl" -> UNION {RefsIn(n.parts[j].body) : j \in 1..Len(n.parts)}
-             [] n.k \in {"apply", "block"} -> RefsIn(n.body)
+           CASE n.k \in kinds -> {n.file}
+             [] n.k = "ctl" -> UNION {RefsIn(n.parts[j].body, kinds) : j \in 1..Len(n.parts)}
+             [] n.k \in {"apply", "block"} -> RefsIn(n.body, kinds)
              [] OTHER -> {}
            : i \in 1..Len(nodes)}
 
@@ -422,12 +422,13 @@ Run(src, cfg) ==
     LET names == DOMAIN src
         ws0 == IF cfg.ws = "default" THEN "all" ELSE cfg.ws
         P == [f \in names |-> Parse(src[f], ws0)]
-        Refs(f) == IF f \in names /\ P[f].ok THEN RefsIn(P[f].body) ELSE {}
+        Refs(f) == IF f \in names /\ P[f].ok THEN RefsIn(P[f].body, {"include", "extends"}) ELSE {}
         R1 == {"main"} \cup Refs("main")
         R2 == R1 \cup UNION {Refs(f) : f \in R1}
         R3 == R2 \cup UNION {Refs(f) : f \in R2}
         R4 == R3 \cup UNION {Refs(f) : f \in R3}
         bad == {f \in R4 \cap names : ~P[f].ok}
+        included == UNION {IF P[f].ok THEN RefsIn(P[f].body, {"include"}) ELSE {} : f \in R4 \cap names}
         (* inheritance chain, child first *)
         Parent(f) == LET e == TopExtends(P[f]) IN IF Len(e) = 1 THEN e[1].file ELSE ""
         c1 == <<"main">>
@@ -445,8 +446,11 @@ Run(src, cfg) ==
     IN
     IF ~P["main"].ok THEN [Res("parse") EXCEPT !.errs = {[file |-> "main", line |-> l] : l \in P["main"].lines}, !.soft = P["main"].soft]
     ELSE IF ~(R4 \subseteq names) THEN [Res("unspec") EXCEPT !.why = "no-such-file"]
-    ELSE IF bad # {} THEN [Res("parse") EXCEPT !.errs = UNION {{[file |-> f, line |-> l] : l \in P[f].lines} : f \in bad}]
+    (* every loaded file is also compiled on its own, so invalid Python in one file and a ParseError in
+       another are reported in load order: left open *)
     ELSE IF un # {} THEN [Res("unspec") EXCEPT !.why = CHOOSE w \in un : TRUE]
+    ELSE IF bad # {} THEN [Res("parse") EXCEPT !.errs = UNION {{[file |-> f, line |-> l] : l \in P[f].lines} : f \in bad}]
+    ELSE IF \E f \in included : TopExtends(P[f]) # <<>> THEN [Res("unspec") EXCEPT !.why = "include-of-child"]
     ELSE IF \E f \in R4 : P[f].ae = "conflict" THEN [Res("unspec") EXCEPT !.why = "autoescape-conflict"]
     ELSE IF chainBad THEN [Res("unspec") EXCEPT !.why = "extends-chain"]
     ELSE IF \E i \in 1..Len(perFile) : ~NoDup(perFile[i]) THEN [Res("unspec") EXCEPT !.why = "duplicate-block"]
@@ -497,11 +501,13 @@ F(toks_, max, libs, aes, wss, svals, pre) ==
     [alpha |-> toks_, max |-> max, libs |-> libs, aes |-> aes, wss |-> wss, svals |-> svals, pre |-> pre]
 
 Family(f) ==
-    CASE f = "lex" ->       \* character level: brace runs, escapes, unterminated and empty tags
+    CASE f = "tiny" ->      \* smallest family: used for the per-action coverage run (-coverage is very slow on this spec)
+           F({"a", "e_s", "if_t", "end"}, 3, {0}, {"xhtml_escape"}, {"all"}, {DefaultS}, <<>>)
+      [] f = "lex" ->       \* character level: brace runs, escapes, unterminated and empty tags
            F({"lb", "rb", "pc", "hash", "bang", "n_ch", "nl"}, 4, {0}, {"xhtml_escape"}, {"all"}, {DefaultS}, <<>>)
       [] f = "text" ->      \* literal text: quotes, backslash, non-ASCII, escapes next to braces, comments
-           F({"a", "dq", "bsl", "eacute", "euro", "astral", "lt", "amp", "sq", "lb", "rb", "esc_expr", "esc_block", "esc_cmt",
-              "cmt", "e_n"}, 3, {0}, {"xhtml_escape"}, {"all"}, {DefaultS}, <<>>)
+           F({"a", "dq", "bsl", "eacute", "astral", "lt", "lb", "rb", "esc_expr", "esc_block", "esc_cmt", "cmt"},
+             3, {0}, {"xhtml_escape"}, {"all"}, {DefaultS}, <<>>)
       [] f = "control" ->   \* if / elif / else, for with break / continue / else
            F({"a", "e_x", "if_t", "if_f", "if_x1", "elif_t", "else", "end", "for_x", "for_e", "break", "continue"},
              4, {0}, {"xhtml_escape"}, {"all"}, {DefaultS}, <<>>)
@@ -522,8 +528,8 @@ Family(f) ==
               "ws_oneline", "sp_nl_sp"},
              3, {1, 2, 3, 4, 5}, AEboth, {"all", "single"}, {DefaultS}, <<>>)
       [] f = "ws" ->        \* whitespace filtering per text node and whitespace directives
-           F({"a", "sp", "nl", "tab", "sp_nl_sp", "a_sp_sp_a", "nl_nl", "cmt", "esc_expr", "e_n", "ws_all", "ws_single", "ws_oneline"},
-             3, {0}, {"xhtml_escape"}, {"default", "all", "single", "oneline"}, {DefaultS}, <<>>)
+           F({"a", "sp", "nl", "tab", "sp_nl_sp", "a_sp_sp_a", "cmt", "esc_expr", "e_n", "ws_all", "ws_single", "ws_oneline"},
+             3, {0}, {"xhtml_escape"}, {"default", "single", "oneline"}, {DefaultS}, <<>>)
       [] f = "errors" ->    \* ill-formed templates and the line of the ParseError
            F({"nl", "a", "if_t", "for_x", "try", "end", "else", "elif_t", "except", "finally", "break", "continue", "bogus", "bogus_arg",
               "empty_block", "empty_block_tight", "e_empty", "e_empty_tight", "cmt_open", "open_expr", "open_block",
@@ -550,7 +556,7 @@ InitState ==
                  [main |-> Render(Family(f).pre), base |-> Library(lib).base, inc |-> Library(lib).inc])
 
 Add(t) ==
-    /\ Len(toks) < Family(cfg.fam).max + Grow
+    /\ Len(toks) + 1 < Family(cfg.fam).max + Grow
     /\ t \in Family(cfg.fam).alpha
     /\ toks' = Append(toks, t)
     /\ src' = [src EXCEPT !.main = @ \o Cps(t)]
